@@ -22,6 +22,7 @@ R6 batch-norm fusing algebra: inv == gamma*rsqrt(var+eps) (then the inverse
    scale/center/use_bias combination.
 """
 import ast
+import itertools
 from fractions import Fraction as F
 
 from ..loader import AnalysisError
@@ -788,6 +789,83 @@ def rule_freeze_consistency(rep, repo, tier):
     rep.ok("R9")
 
 
+def rule_idempotent(rep, repo, tier):
+  """R11: 'a second export changes nothing' needs every weight quantizer
+  whose scale does not depend on the data to reproduce its own codes:
+  Q(c) == c for every value c of its (finite) output value set.  Decided by
+  evaluating the forward normal form at each code."""
+  from .. import quant
+  from ..qir import value_set, Eval, Env
+  from ..pe import ConfigRejected
+  from ..vset import VS
+  mod = repo.module(quant.QMOD)
+  cfgs = []
+  for b, i, kn in itertools.product((2, 4), (0, 1), (True, False)):
+    cfgs.append(("quantized_bits", dict(bits=b, integer=i, keep_negative=kn,
+                                        alpha=1)))
+    cfgs.append(("quantized_linear", dict(bits=b, integer=i,
+                                          keep_negative=kn, alpha=None)))
+  for b, mv in itertools.product((3, 4), (None, F(2), F(1, 2))):
+    cfgs.append(("quantized_po2", dict(bits=b, max_value=mv)))
+    cfgs.append(("quantized_relu_po2", dict(bits=b, max_value=mv)))
+  thrs = (None, F(1, 2), F(4, 5), F(1), 0)
+  if tier == "thorough":
+    thrs += (F(1, 8), F(9, 10), F(3, 4))
+  for alpha, thr in itertools.product((None, F(1), F(2)), thrs):
+    cfgs.append(("ternary", dict(alpha=alpha, threshold=thr)))
+  for alpha, u in itertools.product((None, F(1), F(2)), (False, True)):
+    cfgs.append(("binary", dict(alpha=alpha, use_01=u)))
+  n = 0
+  for cls, kw in cfgs:
+    cfg = "%s(%s)" % (cls, ",".join("%s=%s" % kv for kv in sorted(
+        kw.items())))
+    try:
+      b_ = quant.build(repo, cls, kw)
+    except ConfigRejected:
+      continue
+    f = b_.fwd("infer")
+    vs = value_set(f)
+    if vs.kind == "fin":
+      codes = sorted(vs.vals)
+    elif vs.kind == "po2" and vs.exps.kind == "fin":
+      codes = sorted(F(s_) * F(2) ** int(e) for s_ in vs.signs
+                     for e in vs.exps.vals)
+    else:
+      try:
+        g = vs.as_grid()
+        lo, hi = g.bounds()
+        if lo is None or hi is None or (hi - lo) / g.g > 300:
+          continue
+        k0 = -(-(lo - g.o) // g.g)
+        codes = []
+        v = g.o + k0 * g.g
+        while v <= hi:
+          codes.append(v)
+          v += g.g
+      except Exception:   # pylint: disable=broad-except
+        continue
+    unit = "%s::%s.__call__" % (mod.relpath, cls)
+    rep.unit(unit)
+    n += 1
+    bad = []
+    for c in codes:
+      r = Eval(Env(x=VS.const(c), xsign=(c > 0) - (c < 0))).nf(f)
+      rv = r.const_value()
+      if rv is None and r.kind == "po2" and len(r.signs) == 1 and \
+          r.exps.kind == "fin" and len(r.exps.vals) == 1:
+        rv = F(list(r.signs)[0]) * F(2) ** int(list(r.exps.vals)[0])
+      if rv is None or rv != c:
+        bad.append("Q(%s) = %s" % (c, rv if rv is not None else r))
+    rep.check(not bad, "R11", unit, "quantizer-changes-its-own-codes",
+              "%s: %s - a layer that stores exported weights quantizes them "
+              "again in call(), and a second export stores other values" %
+              (cfg, "; ".join(bad[:5])), loc=b_.pe.loc_of(b_.term),
+              instance=cfg, observed="; ".join(bad[:5]))
+  if n < 30:
+    raise AnalysisError("instance-count only %d idempotence configurations"
+                        % n)
+
+
 def rule_freeze_main(rep, repo):
   """R10: clone_model_and_freeze_auto_po2_scale as a whole, interpreted on a
   synthetic model (Keras model construction and the export replaced by
@@ -1037,6 +1115,8 @@ def run(rep, repo, tier):
   rule_freeze_consistency(rep, repo, tier)
   rule_freeze_main(rep, repo)
   rep.require_instances("R10", 10)
+  rule_idempotent(rep, repo, tier)
+  rep.require_instances("R11", 30)
   rep.require_instances("R9", 25)
   rep.require_instances("R8", 2)
   rep.require_instances("R7", 30)
